@@ -35,10 +35,18 @@ pub fn binary<F: RawFloat, const FORMAT: u128>(num: &Number, lossy: bool) -> Ext
         exp: 0,
     };
 
-    // Early short-circuit, in case of literal 0: like the other moderate
-    // paths, since a zero mantissa cannot be normalized.
-    if num.mantissa == 0 {
+    let fp_inf = ExtendedFloat80 {
+        mant: 0,
+        exp: F::INFINITE_POWER,
+    };
+
+    // Early short-circuit, in case of literal 0 or infinity: like the other
+    // moderate paths, since a zero mantissa cannot be normalized, and
+    // this avoids narrowing casts of the exponent causing numeric overflow.
+    if num.mantissa == 0 || num.exponent <= -0x1000 {
         return fp_zero;
+    } else if num.exponent >= 0x1000 {
+        return fp_inf;
     }
 
     // Normalize our mantissa for simpler results.
